@@ -7,3 +7,4 @@ pub use crate::core::*;
 pub mod fl;
 pub mod ball;
 pub mod vm;
+pub mod evalrun;
